@@ -555,6 +555,51 @@ def validate_groups(chk, wd, gfile):
     return bad
 
 
+def api_world(mode, worlds, docs, cfgs_all, cfgsel, exprs, maxlen, evs=(), options=(), probes=(), steps=(), conts=()):
+    """world file for spec/Api.tla"""
+    strings = set()
+    for d in list(docs) + list(conts):
+        walk_strings(d["av"], strings)
+    for c in cfgs_all:
+        if c["unknown"]["k"] != "none":
+            walk_strings(c["unknown"], strings)
+    for o in options:
+        if o["o"] == "unknown" and o["v"]["k"] != "none":
+            walk_strings(o["v"], strings)
+    lits = literals_of(exprs)
+    parts = path_parts(exprs, [])
+    ft = floattab.table(lits | parts | {"0"} | {s for s in strings if len(s) < 30})
+    pats = {a["val"] for a in atoms_flat(exprs) if a["op"] in ("matches", "notmatches")}
+    return {"mode": mode, "worlds": worlds, "docs": docs, "conts": list(conts), "cfgs": [cfgs_all[i] for i in cfgsel], "cfgsel": cfgsel,
+            "exprs": exprs, "evs": list(evs), "options": list(options), "probes": list(probes), "steps": list(steps), "maxlen": maxlen,
+            "floattab": ft, "regextab": regextab(pats, strings)}
+
+
+def run_api(chk, tag, world, invariants=(), timeout=3000):
+    """TLC (spec/Api.tla) enumerates histories / option lists / filter runs; the harness executes them on the real
+    library and records observation groups; Rel.tla validates the groups.  Returns (summary, bad groups)."""
+    wd = sub(tag)
+    cfg = ('SPECIFICATION Spec\nCONSTANT WorldFile = "world.json"\n' + "".join("INVARIANT %s\n" % i for i in invariants) + "CHECK_DEADLOCK FALSE\n")
+    r = run_tlc("Api", cfg, wd, files={"world.json": world}, timeout=timeout)
+    chk.add_tlc(r)
+    if r.violation:
+        raise Infra("model invariant %s violated in %s:\n%s" % (r.violation, tag, r.out[-2500:]))
+    with open(os.path.join(wd, "cases.ndjson"), "w") as fh:
+        for c in r.cases:
+            fh.write(json.dumps(c) + "\n")
+    harness(["api", "-world", os.path.join(wd, "world.json"), "-cases", os.path.join(wd, "cases.ndjson"),
+             "-groups", os.path.join(wd, "groups.ndjson"), "-out", os.path.join(wd, "api.json")])
+    summ = json.load(open(os.path.join(wd, "api.json")))
+    summ["specmismatch"] = summ.get("specmismatch") or []
+    summ["samples"] = summ.get("samples") or []
+    bad = validate_groups(chk, wd, os.path.join(wd, "groups.ndjson"))
+    log("%s: %d cases, %d groups %s, %d evaluations, %d spec mismatches, %d bad" % (
+        tag, summ["cases"], summ["groups"], summ["byrel"], summ["evals"], len(summ["specmismatch"]), len(bad)))
+    if summ["groups"] == 0:
+        raise Infra("%s: no observation group was recorded" % tag)
+    return summ, bad
+
+
 # ---------------------------------------------------------------------------------------
 # verdicts and evidence
 
